@@ -55,13 +55,13 @@ template <class T> struct CA {
 		s.live[p] = b; s.live_bytes += b; if (s.live_bytes > s.peak) s.peak = s.live_bytes; return (T *)p;
 	}
 	void deallocate(T *p, size_t n) {
-		NewSuspend ns_; AllocState &s = S(); if (!p) { if (n) s.errors.push_back("deallocate(nullptr," + std::to_string(n) + ")"); return; }
+		NewSuspend ns_; AllocState &s = S(); if (!p) { s.errors.push_back("deallocate(nullptr," + std::to_string(n) + ")"); return; } // a null pointer was never obtained from the allocator, whatever the count
 		auto it = s.live.find((void *)p);
 		if (it == s.live.end()) {
 			std::vector<AllocState *> others = g_arenas; others.push_back(&g_default_state);
 			for (AllocState *o : others) { if (o == &s) continue; auto it2 = o->live.find((void *)p); if (it2 != o->live.end()) { s.errors.push_back("block returned to a different allocator than it came from"); o->live_bytes -= it2->second; o->live.erase(it2); free(p); return; } }
 			s.errors.push_back("deallocate of a block that is not live (double free or foreign pointer)"); return; }
-		if (it->second != n * sizeof(T)) s.size_mismatch++;
+		if (it->second != n * sizeof(T)) { s.size_mismatch++; s.errors.push_back("block of " + std::to_string(it->second) + " bytes returned with a different size"); }
 		s.live_bytes -= it->second; s.live.erase(it); free(p);
 	}
 	template <class U> struct rebind { typedef CA<U> other; };
@@ -124,6 +124,7 @@ static void run_C19(const Args &a, long cs) {
 		if (st.size_mismatch) count("deallocations-with-a-size-different-from-the-allocation(not-judged)", st.size_mismatch);
 		if (peak > est) viol(std::string("C19:estimateMemory:peak-exceeds-estimate") + (nk > 1 ? ":with-convolution" : ":load-only"), "{\"estimate\":" + std::to_string(est) + ",\"peak_bytes_requested\":" + std::to_string(peak) + ",\"d\":" + dj + "}");
 		if (!st.live.empty()) viol("C19:allocator:blocks-still-live-after-destruction", dj);
+		for (auto &e : st.errors) viol("C19:allocator:" + e.substr(0, e.find(" bytes") == std::string::npos ? e.size() : 8) + (e.find("different size") != std::string::npos ? "returned-with-a-different-size" : ""), dj); st.errors.clear();
 		if (cs % 30 == 0 && dc.first == decl[0].first) sample("{\"estimate\":" + std::to_string(est) + ",\"peak\":" + std::to_string(peak) + ",\"d\":" + dj + "}");
 	}
 	unlink(path.c_str());
@@ -243,7 +244,7 @@ static long run_history(const Args &a, uint64_t seqseed, long cs, AllocCtl &st, 
 				break; }
 			case 13: case 14: { if (ti == tj) break; hist += "moveassign" + std::to_string(ti) + "<-" + std::to_string(tj) + ";"; phase_log("move assignment"); Snap other = snap(*obj[tj]); if (!faulted && multi) count((populated || other.ndim || !before.aux.empty() || !other.aux.empty()) ? "move-assignments-between-arenas:storage-held" : "move-assignments-between-arenas:both-empty");
 				{ NewArm na_; *T = std::move(*obj[tj]); } if (!snap_eq(snap(*T), other)) fail("move-assignment:target-differs-from-source");
-				Snap src = snap(*obj[tj]); if (!(src.ndim == 0 && src.aux.empty()) && !snap_eq(src, before)) fail("move-assignment:source-neither-empty-nor-holding-the-target's-former-contents"); if (before.ndim == 0 && before.aux.empty() && !(src.ndim == 0 && src.aux.empty())) fail("move-assignment:moved-from-table-is-not-empty");
+				Snap src = snap(*obj[tj]); if (!(src.ndim == 0 && src.aux.empty())) fail("move-assignment:moved-from-table-is-not-empty");
 				break; }
 			case 15: { hist += "cmp;"; phase_log("operator=="); bool e1 = (*T == *obj[tj]); bool e2 = (*obj[tj] == *T); if (e1 != e2) fail("operator==:not-symmetric"); if (ti == tj && populated) { bool nan = false; for (float c : before.coef) if (std::isnan(c)) nan = true; if (!e1 && !nan) fail("operator==:table-not-equal-to-itself"); } break; }
 			case 16: { bool mem = r.coin(0.5); hist += std::string(mem ? "writemem" : "write") + std::to_string(ti) + ";"; phase_log(mem ? "write_fits_mem" : "write_fits"); std::pair<void *, size_t> w(nullptr, 0);
